@@ -261,6 +261,24 @@ Definition spec_call (mt : meth) (o : binop) (s1 s2 : spectrum) (a : sampling_ar
   | _, _ => spec_call_args mt o s1 s2 a f
   end.
 
+(* Spectrum.sample(wave, method, fill_value, waveunit) with every argument form.  fill_value: a number, a
+   (below, above) tuple, or something interp1d cannot broadcast (a two-element list / array, a longer tuple) *)
+Inductive fill_arg := FOk (f : fillv) | FBadShape.
+Definition sample_call (mt : meth) (s : spectrum) (pts : list Qc) (fa : fill_arg) (u : wunit) : result (list xval) :=
+  let s' := conv s u in
+  match mt with
+  | MUnknown => Err NotImplementedErr               (* the kind is checked before anything else *)
+  | _ =>
+    if Nat.leb (meth_min_points mt) (length (wave s')) then
+      match fa with
+      | FBadShape => Err ValueError
+      | FOk f => Ok (map (fun x => if inrange (wave s') x
+                                   then match mt with MLinear => XQ (interp (wave s') (value s') x) | _ => XUnmodelled end
+                                   else XQ (fill_at f (wave s') x)) pts)
+      end
+    else Err ValueError                             (* an empty table, or fewer samples than the spline order + 1 *)
+  end.
+
 (* the named methods: sampling, method and fill_value are looked at ONLY for a Spectrum operand *)
 Definition method_call (mt : meth) (o : binop) (s : spectrum) (other : operand) (a : sampling_arg) (f : fillv)
   : result rspectrum :=
